@@ -74,7 +74,7 @@ def world():
     items = {}
     W = _WORLD
     W.update(dict(gens=gens, fr=fr, code2name=code2name, items=items, Item=Item,
-                  UNWRAP={}, ELAB={}, stackscope=stackscope, PRUNE=PRUNE, ncalls=[0]))
+                  UNWRAP={}, ELAB={}, stackscope=stackscope, PRUNE=PRUNE, ncalls=[0], lists=[]))
 
     def resolve(x):
         if x is None:
@@ -102,7 +102,9 @@ def world():
         if kind == "tuple":
             return tuple(objs)
         if kind == "list":
-            return list(objs)
+            lst = list(objs)
+            W["lists"].append((lst, tuple(lst)))
+            return lst
         if kind == "iter":
             @yields_frames
             def it_():
@@ -127,7 +129,9 @@ def world():
         if kind == "replace":
             return tuple(objs)
         if kind == "replacelist":
-            return list(objs)
+            lst = list(objs)
+            W["lists"].append((lst, tuple(lst)))
+            return lst
         if kind == "insert":
             return tuple(objs) + (next_inner,)
         if kind == "insertlist":
@@ -256,6 +260,7 @@ def run_impl(case):
     for k, v in case["elab"].items():
         W["ELAB"][k] = None if v is None else (v[0], tuple(v[1]))
     W["ncalls"][0] = 0
+    del W["lists"][:]
     st = W["stackscope"].extract(W["resolve"](case["root"]), with_contexts=False)
     c2n = W["code2name"]
     frames = [c2n.get(f.pyframe.f_code, "?") for f in st.frames]
@@ -274,7 +279,12 @@ def run_impl(case):
         leaf = [nm(x) for x in leaf]
     else:
         leaf = nm(leaf)
-    return frames, leaf, st.error
+    err = st.error
+    for lst, snap in W["lists"]:
+        # a sequence handed over by a hook belongs to the hook (it may hand the same object over again next time)
+        if tuple(lst) != snap and err is None:
+            err = AssertionError("a list returned by a hook was modified by extract(): %r, was %r" % ([nm(x) for x in lst], [nm(x) for x in snap]))
+    return frames, leaf, err
 
 
 def check_case(case, stats=None):
